@@ -348,6 +348,10 @@ func (g *G) reqDirectives(p *Profile) []directive {
 var varyFields = []string{"Accept-Encoding", "X-Custom", "Accept-Language", "User-Agent"}
 
 func (g *G) varyValue() string {
+	if g.chance(0.04) {
+		// a selecting field that the cache itself reads for other purposes
+		return g.pick("Cache-Control", "Accept-Encoding, Cache-Control", "cache-control")
+	}
 	switch g.intn(10) {
 	case 0:
 		return "*"
